@@ -4,7 +4,7 @@
 //!
 //! jobs.json: {"jobs": [ {"id", "headers": [path..], "contents": [[name, text]..],
 //!   "path": wrapper path (no extension), "suffix": str|null, "callbacks": [name..],
-//!   "clang_args": [..], "out": bindings path} ]}
+//!   "clang_args": [..], "out": bindings path, "log": hook log path | null} ]}
 //! Result: one JSON line per job {"id","outcome","msg"} (same outcome vocabulary as `run`).
 
 use serde_json::{json, Value};
@@ -18,6 +18,8 @@ fn strs(v: &Value) -> Vec<String> {
 
 fn one(job: &Value) -> Value {
     let id = job["id"].as_str().unwrap_or("").to_string();
+    let log = job["log"].as_str().map(std::path::PathBuf::from);
+    bindgen::verif::set_thread_log(log.as_deref());
     let r = catch_unwind(AssertUnwindSafe(|| {
         let mut b = bindgen::builder()
             .formatter(bindgen::Formatter::None)
@@ -51,6 +53,7 @@ fn one(job: &Value) -> Value {
         Ok(x) => x,
         Err(p) => ("panic".to_string(), crate::run::panic_msg(p), None),
     };
+    bindgen::verif::set_thread_log(None);
     if let (Some(out), Some(text)) = (job["out"].as_str(), text.as_ref()) {
         let _ = std::fs::write(out, text);
     }
